@@ -74,7 +74,7 @@ func runC06(s *scenario, seed uint64) {
 	master := hx.NewRand(hx.NewRand(seed).U64() ^ 0xC06C06C06)
 	runs := 12
 	if s.thorough {
-		runs = 200
+		runs = 1500 // as many as fit into the wall-time budget
 	}
 	for i := 0; i < runs; i++ {
 		derived := master.U64()
